@@ -236,8 +236,41 @@ func genRecursion(emit func(Case)) {
 		{"esi", "sub vcl_recv { esi; }\nsub vcl_fetch { esi; }\n"},
 	}
 	reqs := []Request{{"GET", "http://example.com/a", nil}, {"GET", "http://example.com/a", nil}}
+	// call graphs without recursion whose expansion is exponential: a chain of n subroutines each calling the next one k times
+	for _, n := range []int{12, 24, 40, 60} {
+		for _, k := range []int{2, 3} {
+			var b strings.Builder
+			for i := 0; i < n; i++ {
+				fmt.Fprintf(&b, "sub s%02d {%s }\n", i, strings.Repeat(fmt.Sprintf(" call s%02d;", i+1), k))
+			}
+			fmt.Fprintf(&b, "sub s%02d { set req.http.Leaf = \"1\"; }\nsub vcl_recv { call s00; }\n", n)
+			mains = append(mains, struct{ label, src string }{fmt.Sprintf("call-dag depth=%d fanout=%d", n, k), b.String()})
+		}
+	}
+	// a diamond: many paths re-converge on one subroutine at every level
+	{
+		var b strings.Builder
+		for i := 0; i < 30; i++ {
+			fmt.Fprintf(&b, "sub l%02d { call m%02da; call m%02db; }\nsub m%02da { call l%02d; }\nsub m%02db { call l%02d; }\n", i, i, i, i, i+1, i, i+1)
+		}
+		b.WriteString("sub l30 { set req.http.Leaf = \"1\"; }\nsub vcl_recv { call l00; }\n")
+		mains = append(mains, struct{ label, src string }{"call-dag diamond depth=30", b.String()})
+	}
 	for _, m := range mains {
 		emit(Case{Kind: "serve", Main: m.src, Requests: reqs, Label: m.label})
+	}
+	// header values that are malformed as sub-field lists, read / replaced / removed through every object
+	for _, v := range []string{`{"a=""}`, `{"""}`, `{"a="x"}`, `{"a=","}`, `{"a="\"}`, `{"=,=;"}`, `{"a"}`, `{"a=, b="}`, `{",,,"}`, `{"a=""b"}`, `{" a = " "}`} {
+		for _, ob := range []struct{ obj, sub, pre string }{{"req", "recv", ""}, {"bereq", "miss", "sub vcl_recv { return(lookup); }\n"}, {"beresp", "fetch", "sub vcl_recv { return(lookup); }\n"}, {"resp", "deliver", ""}, {"obj", "error", "sub vcl_recv { error 601; }\n"}} {
+			h := ob.obj + ".http.X"
+			body := fmt.Sprintf("set %s = %s; set %s.http.R1 = %s:a; set %s.http.R2 = %s:b; if (%s:a) { set %s.http.R3 = \"t\"; } unset %s:b; set %s:a = \"z\"; set %s.http.R4 = %s:a; unset %s:a; set %s.http.R5 = subfield(%s, \"a\"); set %s.http.R6 = subfield(%s, \"a\", \";\");", h, v, ob.obj, h, ob.obj, h, h, ob.obj, h, h, ob.obj, h, h, ob.obj, h, ob.obj, h)
+			emit(Case{Kind: "serve", Main: ob.pre + "sub vcl_" + ob.sub + " { " + body + " }\n", Requests: reqs[:1], Label: "malformed sub-field list " + ob.obj})
+		}
+	}
+	// the same shapes arriving in a request header
+	for _, v := range []string{`a="`, `"`, `a="x`, `a=",`, `a=""b`, ` a = " `, `a=\`} {
+		emit(Case{Kind: "serve", Main: "sub vcl_recv { set req.http.R1 = req.http.X:a; set req.http.R2 = subfield(req.http.X, \"a\"); if (req.http.X:a == \"x\") { set req.http.R3 = \"t\"; } }\n",
+			Requests: []Request{{"GET", "http://example.com/a", [][2]string{{"X", v}}}}, Label: "malformed sub-field list request header"})
 	}
 	// include shapes: self / mutual / missing, at root and inside a subroutine
 	for _, inSub := range []bool{false, true} {
@@ -518,7 +551,7 @@ func init() {
 	engine.Register(engine.Spec[Case]{
 		ID:    "C08",
 		Level: "exploration",
-		Rule: "crash/hang oracle over (1) the complete product assignment operator (15) x target type (7) x operand type (7) x boundary operands (0, +-1, INT64 min/max, 2^31, 63/64/65, NaN/inf, FLOAT_MAX/MIN, empty and not-set strings, epoch boundary times, ...) x {literal, variable} x 3 initial values, plus header and header-sub-field targets; (2) every built-in function of builtin.yml x every declared signature x boundary arguments per parameter type (full product up to 3 parameters, one deviation beyond), as assignment, in a condition and in a concatenation; (3) every statement derivation within 1 deviation in all 9 scopes; recursive / mutually recursive / functional-recursive subroutines, unconditional restart and return(restart) in every scope, error in error, goto loops, all self/mutual/missing include shapes at root and statement level through ServeHTTP; 7 director types x 6 member shapes x 8 property sets x where the backend is selected x the state vcl_recv returns, and backends with odd properties or none; (4) the full lifecycle through ServeHTTP with a program that reads every readable predefined variable of every scope, for 5 methods x 4 paths x 3 queries x 5 header sets x 1-3 requests per instance; (5) the test runner on 7 test files. Every case runs under a fuel budget of 2e7 ticks. non-trivial = every case; distinct = distinct program/requests",
+		Rule: "crash/hang oracle over (1) the complete product assignment operator (15) x target type (7) x operand type (7) x boundary operands (0, +-1, INT64 min/max, 2^31, 63/64/65, NaN/inf, FLOAT_MAX/MIN, empty and not-set strings, epoch boundary times, ...) x {literal, variable} x 3 initial values, plus header and header-sub-field targets; (2) every built-in function of builtin.yml x every declared signature x boundary arguments per parameter type (full product up to 3 parameters, one deviation beyond), as assignment, in a condition and in a concatenation; (3) every statement derivation within 1 deviation in all 9 scopes; recursive / mutually recursive / functional-recursive subroutines, non-recursive call graphs with exponential expansion (chains of depth 12-60 with fan-out 2-3, a diamond), header values malformed as sub-field lists read / replaced / removed on every object and arriving in a request header, unconditional restart and return(restart) in every scope, error in error, goto loops, all self/mutual/missing include shapes at root and statement level through ServeHTTP; 7 director types x 6 member shapes x 8 property sets x where the backend is selected x the state vcl_recv returns, and backends with odd properties or none; (4) the full lifecycle through ServeHTTP with a program that reads every readable predefined variable of every scope, for 5 methods x 4 paths x 3 queries x 5 header sets x 1-3 requests per instance; (5) the test runner on 7 test files. Every case runs under a fuel budget of 2e7 ticks. non-trivial = every case; distinct = distinct program/requests",
 		Gen:  gen08,
 		Key: func(c Case) string {
 			var b strings.Builder
